@@ -66,6 +66,15 @@ pub struct Sx126xChip {
     pub symb_timeout: u8,
     pub default_reg: u8,
     pub commands: u64,
+    /// outcomes are applied when the driver waits for the interrupt line instead of at the
+    /// start command (the operation is in flight in between)
+    pub deferred: bool,
+    /// operation in flight: (opcode that started it, continuous reception)
+    pub pending: Option<(u8, bool)>,
+    /// interrupt-line wake-ups without any flag before the real one
+    pub spurious: u8,
+    /// board-dependent setup that must also be present at every start ("regulator", "tcxo")
+    pub needed_extra: Vec<&'static str>,
 }
 
 pub const SX126X_NEEDED_TX: [&str; 9] = ["packet_type", "sync_word", "buffer_base", "modulation", "packet_params", "irq_params", "frequency", "pa_config", "tx_params"];
@@ -103,6 +112,10 @@ impl Sx126xChip {
             symb_timeout: 0,
             default_reg: 0,
             commands: 0,
+            deferred: false,
+            pending: None,
+            spurious: 0,
+            needed_extra: vec![],
         }
     }
 
@@ -112,6 +125,73 @@ impl Sx126xChip {
         self.irq = 0;
         self.irq_mask = 0;
         self.mode = Mode::Standby;
+        self.pending = None;
+    }
+
+    fn start(&mut self, op: u8, continuous: bool) {
+        if self.deferred {
+            self.pending = Some((op, continuous));
+        } else {
+            self.complete(op, continuous);
+        }
+    }
+
+    /// The operation started by `op` runs to its `outcome`.
+    fn complete(&mut self, op: u8, continuous: bool) {
+        match op {
+            0x83 => match self.outcome {
+                Outcome::Done => {
+                    self.irq |= 0x0001;
+                    self.mode = Mode::Standby;
+                }
+                Outcome::Timeout => {
+                    self.irq |= 0x0200;
+                    self.mode = Mode::Standby;
+                }
+                _ => {}
+            },
+            0x82 | 0x94 => match self.outcome {
+                Outcome::Done => {
+                    self.irq |= 0x0002 | 0x0004 | 0x0008 | 0x0010;
+                    if !continuous {
+                        self.mode = Mode::Standby;
+                    }
+                }
+                Outcome::CrcError => {
+                    self.irq |= 0x0002 | 0x0004 | 0x0010 | 0x0040;
+                    if !continuous {
+                        self.mode = Mode::Standby;
+                    }
+                }
+                Outcome::HeaderError => {
+                    self.irq |= 0x0004 | 0x0020;
+                    if !continuous && op != 0x94 {
+                        // the single-shot reception then runs into its timeout
+                        self.irq |= 0x0200;
+                        self.mode = Mode::Standby;
+                    }
+                }
+                Outcome::Timeout => {
+                    if !continuous && op != 0x94 {
+                        self.irq |= 0x0200;
+                        self.mode = Mode::Standby;
+                    }
+                }
+                Outcome::Nothing => {}
+            },
+            0xC5 => match self.outcome {
+                Outcome::Done => {
+                    self.irq |= 0x0080 | 0x0100;
+                    self.mode = Mode::Standby;
+                }
+                Outcome::Timeout | Outcome::CrcError | Outcome::HeaderError => {
+                    self.irq |= 0x0080;
+                    self.mode = Mode::Standby;
+                }
+                Outcome::Nothing => {}
+            },
+            _ => {}
+        }
     }
 
     fn status(&self) -> u8 {
@@ -126,7 +206,7 @@ impl Sx126xChip {
     }
 
     fn check_start(&mut self, needed: &[&'static str], what: &str) {
-        let missing: Vec<&str> = needed.iter().copied().filter(|n| !self.programmed.contains(n)).collect();
+        let missing: Vec<&str> = needed.iter().chain(self.needed_extra.iter()).copied().filter(|n| !self.programmed.contains(n)).collect();
         if !missing.is_empty() {
             self.missing_at_start.push(format!("{what} started without {}", missing.join(",")));
         }
@@ -142,6 +222,24 @@ impl Default for Sx126xChip {
 impl ChipModel for Sx126xChip {
     fn reset(&mut self) {
         self.cold_reset();
+    }
+
+    fn busy(&self) -> bool {
+        self.mode.asleep()
+    }
+
+    fn irq_wait(&mut self) -> bool {
+        if !self.deferred {
+            return true;
+        }
+        if self.spurious > 0 {
+            self.spurious -= 1;
+            return true;
+        }
+        if let Some((op, continuous)) = self.pending.take() {
+            self.complete(op, continuous);
+        }
+        self.irq & self.irq_mask != 0
     }
 
     fn as_any(&mut self) -> &mut dyn std::any::Any {
@@ -169,10 +267,12 @@ impl ChipModel for Sx126xChip {
             0xC0 => vec![self.status(); read_len],
             0x84 => {
                 self.mode = if g(0) & 0x04 != 0 { Mode::SleepWarm } else { Mode::SleepCold };
+                self.pending = None;
                 vec![]
             }
             0x80 => {
                 self.mode = Mode::Standby;
+                self.pending = None;
                 vec![]
             }
             0xC1 => {
@@ -183,17 +283,7 @@ impl ChipModel for Sx126xChip {
                 self.tx_started += 1;
                 self.check_start(&SX126X_NEEDED_TX, "TX");
                 self.mode = Mode::Tx;
-                match self.outcome {
-                    Outcome::Done => {
-                        self.irq |= 0x0001;
-                        self.mode = Mode::Standby;
-                    }
-                    Outcome::Timeout => {
-                        self.irq |= 0x0200;
-                        self.mode = Mode::Standby;
-                    }
-                    _ => {}
-                }
+                self.start(0x83, false);
                 vec![]
             }
             0x82 | 0x94 => {
@@ -208,52 +298,14 @@ impl ChipModel for Sx126xChip {
                 } else {
                     Mode::RxSingle
                 };
-                match self.outcome {
-                    Outcome::Done => {
-                        self.irq |= 0x0002 | 0x0004 | 0x0008 | 0x0010;
-                        if !continuous {
-                            self.mode = Mode::Standby;
-                        }
-                    }
-                    Outcome::CrcError => {
-                        self.irq |= 0x0002 | 0x0004 | 0x0010 | 0x0040;
-                        if !continuous {
-                            self.mode = Mode::Standby;
-                        }
-                    }
-                    Outcome::HeaderError => {
-                        self.irq |= 0x0004 | 0x0020;
-                        if !continuous {
-                            // the single-shot reception then runs into its timeout
-                            self.irq |= 0x0200;
-                            self.mode = Mode::Standby;
-                        }
-                    }
-                    Outcome::Timeout => {
-                        if !continuous {
-                            self.irq |= 0x0200;
-                            self.mode = Mode::Standby;
-                        }
-                    }
-                    Outcome::Nothing => {}
-                }
+                self.start(op, continuous);
                 vec![]
             }
             0xC5 => {
                 self.cad_started += 1;
                 self.check_start(&["packet_type", "modulation", "frequency", "irq_params"], "CAD");
                 self.mode = Mode::Cad;
-                match self.outcome {
-                    Outcome::Done => {
-                        self.irq |= 0x0080 | 0x0100;
-                        self.mode = Mode::Standby;
-                    }
-                    Outcome::Timeout | Outcome::CrcError | Outcome::HeaderError => {
-                        self.irq |= 0x0080;
-                        self.mode = Mode::Standby;
-                    }
-                    Outcome::Nothing => {}
-                }
+                self.start(0xC5, false);
                 vec![]
             }
             0xD1 => {
@@ -383,6 +435,10 @@ pub struct Sx127xChip {
     pub rx_started: u32,
     pub cad_started: u32,
     pub commands: u64,
+    pub deferred: bool,
+    /// operation in flight: the RegOpMode mode that started it
+    pub pending: Option<u8>,
+    pub spurious: u8,
 }
 
 pub const SX127X_NEEDED_TX: [&str; 7] = ["lora_mode", "sync_word", "buffer_base", "modulation", "packet_params", "frequency", "pa_config"];
@@ -408,6 +464,9 @@ impl Sx127xChip {
             rx_started: 0,
             cad_started: 0,
             commands: 0,
+            deferred: false,
+            pending: None,
+            spurious: 0,
         };
         c.por();
         c
@@ -421,6 +480,66 @@ impl Sx127xChip {
         self.regs[0x0F] = 0x00;
         self.regs[0x31] = 0xC3;
         self.programmed.clear();
+        self.pending = None;
+    }
+
+    fn start(&mut self, m: u8) {
+        if self.deferred {
+            self.pending = Some(m);
+        } else {
+            self.complete(m);
+        }
+    }
+
+    /// masked interrupts never show up in RegIrqFlags
+    fn raise(&mut self, bits: u8) {
+        self.regs[0x12] |= bits & !self.regs[0x11];
+    }
+
+    fn complete(&mut self, m: u8) {
+        match m {
+            3 => {
+                if self.outcome == Outcome::Done {
+                    self.raise(0x08);
+                    self.set_mode(1);
+                }
+            }
+            5 | 6 => {
+                let single = m == 6;
+                match self.outcome {
+                    Outcome::Done => {
+                        self.raise(0x40 | 0x10);
+                        self.regs[0x13] = self.rx_len;
+                        self.regs[0x10] = self.rx_off;
+                        if single {
+                            self.set_mode(1);
+                        }
+                    }
+                    Outcome::CrcError => {
+                        self.raise(0x40 | 0x20 | 0x10);
+                        self.regs[0x13] = self.rx_len;
+                        self.regs[0x10] = self.rx_off;
+                        if single {
+                            self.set_mode(1);
+                        }
+                    }
+                    Outcome::Timeout | Outcome::HeaderError => {
+                        if single {
+                            self.raise(0x80);
+                            self.set_mode(1);
+                        }
+                    }
+                    Outcome::Nothing => {}
+                }
+            }
+            7 => {
+                if self.outcome != Outcome::Nothing {
+                    self.raise(0x04 | if self.outcome == Outcome::Done { 0x01 } else { 0 });
+                    self.set_mode(1);
+                }
+            }
+            _ => {}
+        }
     }
 
     pub fn mode(&self) -> Mode {
@@ -457,63 +576,33 @@ impl Sx127xChip {
                 self.regs[0x0D] = p.wrapping_add(1);
             }
             0x01 => {
-                let lora_bit_change = (v ^ self.regs[0x01]) & 0x80 != 0;
-                if lora_bit_change && self.mode() != Mode::SleepCold {
-                    // LongRangeMode can only be modified in sleep mode: the write of that bit is ignored
-                    self.violations.push("LongRangeMode bit changed outside sleep mode (ignored by the chip)".into());
-                    self.regs[0x01] = (v & 0x7F) | (self.regs[0x01] & 0x80);
-                } else {
+                // LongRangeMode can only be modified in sleep mode: otherwise the write of that bit is ignored
+                if self.mode() == Mode::SleepCold {
                     self.regs[0x01] = v;
+                } else {
+                    self.regs[0x01] = (v & 0x7F) | (self.regs[0x01] & 0x80);
                 }
                 if self.regs[0x01] & 0x80 != 0 {
                     self.programmed.insert("lora_mode");
+                } else {
+                    self.programmed.remove("lora_mode");
                 }
+                self.pending = None;
                 match self.regs[0x01] & 7 {
                     3 => {
                         self.tx_started += 1;
                         self.check_start(&SX127X_NEEDED_TX, "TX");
-                        if self.outcome == Outcome::Done {
-                            self.regs[0x12] |= 0x08;
-                            self.set_mode(1);
-                        }
+                        self.start(3);
                     }
                     m @ (5 | 6) => {
                         self.rx_started += 1;
                         self.check_start(&SX127X_NEEDED_RX, "RX");
-                        let single = m == 6;
-                        match self.outcome {
-                            Outcome::Done => {
-                                self.regs[0x12] |= 0x40 | 0x10;
-                                self.regs[0x13] = self.rx_len;
-                                self.regs[0x10] = self.rx_off;
-                                if single {
-                                    self.set_mode(1);
-                                }
-                            }
-                            Outcome::CrcError => {
-                                self.regs[0x12] |= 0x40 | 0x20 | 0x10;
-                                self.regs[0x13] = self.rx_len;
-                                self.regs[0x10] = self.rx_off;
-                                if single {
-                                    self.set_mode(1);
-                                }
-                            }
-                            Outcome::Timeout | Outcome::HeaderError => {
-                                if single {
-                                    self.regs[0x12] |= 0x80;
-                                    self.set_mode(1);
-                                }
-                            }
-                            Outcome::Nothing => {}
-                        }
+                        self.start(m);
                     }
                     7 => {
                         self.cad_started += 1;
                         self.check_start(&["lora_mode", "modulation", "frequency"], "CAD");
-                        if self.outcome != Outcome::Nothing {
-                            self.regs[0x12] |= 0x04 | if self.outcome == Outcome::Done { 0x01 } else { 0 };
-                            self.set_mode(1);
-                        }
+                        self.start(7);
                     }
                     _ => {}
                 }
@@ -563,6 +652,19 @@ impl Sx127xChip {
 impl ChipModel for Sx127xChip {
     fn reset(&mut self) {
         self.por();
+    }
+    fn irq_wait(&mut self) -> bool {
+        if !self.deferred {
+            return true;
+        }
+        if self.spurious > 0 {
+            self.spurious -= 1;
+            return true;
+        }
+        if let Some(m) = self.pending.take() {
+            self.complete(m);
+        }
+        self.regs[0x12] & !self.regs[0x11] != 0
     }
     fn as_any(&mut self) -> &mut dyn std::any::Any {
         self
